@@ -83,7 +83,9 @@ def handleSeg (inp out : List String) : String :=
     -- Line: Contains<Coord>
     let mc := if a == b then a == p else (p != a && p != b && lineCoord a b p)
     let tags := (if mi then "on" else "off") ++ (if naiveOrient a b p != orient a b p then " naive-differs" else "") ++
-      (if underflowRange [a, b, p] then " underflow-range" else "")
+      -- K10 excuses a lost *sign* of a non-zero determinant; an exactly collinear triple stays exact under underflow
+      -- (both products round to the same value), so the along-the-segment decision is owed in full there
+      (if underflowRange [a, b, p] && orient a b p != .col then " underflow-range" else "")
     reply (ix == mi && ct == mc) (if ix == mi && ct == mc then "PASS" else "FAIL:point-on-segment-wrong") tags
       (toString mi ++ " " ++ toString mc) (toString ix ++ " " ++ toString ct)
   | _, _ => "ERR parse"
